@@ -138,6 +138,16 @@ Theorem C18_reread_double_destroy :
 Proof. exact reread_double_destroy. Qed.
 Print Assumptions C18_reread_double_destroy.
 
+(* ... also when the re-read is itself atomic (no data race at all on the count): the last
+   two owners release concurrently, both read 0, the node is destroyed twice *)
+Theorem C18_reread_atomic_double_destroy :
+  exists ths sch, wf_init 0 rc_two ths /\
+    let st := run reread_atomic_impl rnd_ex (init_state rc_two ths) sch in
+    finished st = true /\ destroy_count 0 (trace st) = 2 /\
+    Forall atomic_ev (node_trace 0 (trace st)).
+Proof. exact reread_atomic_double_destroy. Qed.
+Print Assumptions C18_reread_atomic_double_destroy.
+
 (* the hash uses the function's local value instead of re-reading: two different hashes *)
 Theorem C18_local_seed_two_hashes :
   exists sch, let st := run local_impl rnd_ex (init_state rc_two [([Hash], h1 0); ([Hash], h1 0)]) sch in
